@@ -1,4 +1,5 @@
 mod common;
+mod jura;
 mod uist;
 
 fn usage() -> ! {
@@ -18,11 +19,13 @@ fn main() {
             let cases: usize = a[4].parse().expect("cases");
             match c {
                 "uist" => uist::gen(seed, cases, &a[5], &a[6]),
+                "jura" => jura::gen(seed, cases, &a[5], &a[6]),
                 _ => usage(),
             }
         }
         (c, "run") if a.len() == 6 => match c {
             "uist" => uist::run(&a[3], &a[4], &a[5]),
+            "jura" => jura::run(&a[3], &a[4], &a[5]),
             _ => usage(),
         },
         _ => usage(),
